@@ -19,7 +19,7 @@ CONSTANTS
   XNameI = {}
   XValI = {}
   Whichs = {1, 2, 3}
-  RCMasks = {0, 1, 2, 4, 8, 16, 31}
+  RCMasks = {0, 3, 12, 16, 31}
   RCModes = {0, 1}
   Swaps = {0, 1}
   Revs = {0}
